@@ -82,6 +82,11 @@ def shapes(quick):
     reg('num-sci-unit', lambda h, l: h.num(0.000987, 'kilowatt'))
     for u in ('percent', 'us_dollar', 'fahrenheit', 'square_meter', 'kilowatt_hour', 'meters_per_second'):
         reg('num-unit-' + u, lambda h, l, u=u: h.num(dec_float(h.ex, l, 1, 1), u))
+    # magnitudes at which a writer might switch notation, with a unit
+    reg('num-1e7-unit', lambda h, l: h.num(1e7, 'kilowatt_hour'))
+    reg('num-2.5e10-unit', lambda h, l: h.num(2.5e10, 'percent'))
+    reg('num-5e-4-unit', lambda h, l: h.num(5e-4, 'meter'))
+    reg('num-1e21-unit', lambda h, l: h.num(1e21, 'us_dollar'))
     reg('num-nan-unit', lambda h, l: h.num(float('nan'), 'meter'), wf=False)
     reg('num-inf-unit', lambda h, l: h.num(float('inf'), 'meter'), wf=False)
     reg('num-dec11', lambda h, l: h.num(dec_float(h.ex, l, 1, 1)))
